@@ -27,3 +27,39 @@ def relayout(t, layout):
         big = torch.stack([t, torch.full_like(t, 7)], -1).flatten(-2)
         return big[..., ::2]
     return t
+
+
+# ---- module objects that travelled: the same module after copy.deepcopy / a pickle round trip / a state_dict
+# round trip into a freshly built twin must behave exactly like the object the constructor returned.
+TRAVEL = ["as_built", "as_built", "deepcopy", "pickle", "train_eval_toggle"]
+TRAVEL_SEEN = {}
+
+
+def travelled(mod, *ints, pickle_ok=True, toggle_ok=True):
+    """Return `mod` as is or after a journey chosen deterministically from the case's own integers."""
+    import copy
+    import pickle
+
+    k = 0
+    for j, x in enumerate(ints):
+        k += (2 * j + 5) * int(x)
+    how = TRAVEL[k % len(TRAVEL)]
+    if how == "pickle" and not pickle_ok:
+        how = "deepcopy"
+    if how == "train_eval_toggle" and not toggle_ok:
+        how = "deepcopy"
+    if how == "deepcopy":
+        mod = copy.deepcopy(mod)
+    elif how == "pickle":
+        try:
+            mod = pickle.loads(pickle.dumps(mod))
+        except (pickle.PicklingError, AttributeError, TypeError):
+            how = "deepcopy(unpicklable)"
+            mod = copy.deepcopy(mod)
+    elif how == "train_eval_toggle":
+        was = mod.training
+        mod.eval()
+        mod.train()
+        mod.train(was)
+    TRAVEL_SEEN[how] = TRAVEL_SEEN.get(how, 0) + 1
+    return mod
